@@ -4,6 +4,7 @@ package main
 // instruction granularity.
 
 import (
+	"os"
 	"fmt"
 	"go/constant"
 	"go/token"
@@ -251,6 +252,9 @@ func (q *Cut) Run() *Witness {
 			for _, b := range fn.Blocks {
 				for i, in := range b.Instrs {
 					if q.Start(in) {
+						if os.Getenv("UQ_DEBUG_ENV") != "" {
+							fmt.Fprintf(os.Stderr, "DEBUG start %s block %d env=%q\n", fn.Name(), b.Index, q.domEnv(b))
+						}
 						push(state{p: pt{b, i + 1}, fr: fr, env: q.domEnv(b)}, -1)
 					}
 					if cl, ok := in.(*ssa.Call); ok && !q.NoInline && depth < 2 {
@@ -416,7 +420,16 @@ func (q *Cut) flagEnv(env string, from, to *ssa.BasicBlock) string {
 				}
 				cond, pol = u.X, !pol
 			}
-			if _, isPhi := cond.(*ssa.Phi); !isPhi && repeatedCond(cond) {
+			if ph, isPhi := cond.(*ssa.Phi); isPhi {
+				// a branch on a boolean φ decides it until the φ's block is entered again (handled above, on entry)
+				if ph.Block() != to {
+					if pol {
+						m[flagName(ph)] = 1
+					} else {
+						m[flagName(ph)] = -1
+					}
+				}
+			} else if repeatedCond(cond) {
 				if pol {
 					m[condName(cond)] = 1
 				} else {
@@ -459,16 +472,21 @@ func (q *Cut) domEnv(b *ssa.BasicBlock) string {
 			}
 			cond, pol = u.X, !pol
 		}
-		if _, isPhi := cond.(*ssa.Phi); isPhi || !repeatedCond(cond) {
+		key := condName(cond)
+		if ph, isPhi := cond.(*ssa.Phi); isPhi {
+			// a boolean φ that a dominating branch tested: its value is fixed until the φ's block is entered again
+			// (the search drops a flag when it re-enters the defining block)
+			key = flagName(ph)
+		} else if !repeatedCond(cond) {
 			continue
 		}
-		if _, seen := m[condName(cond)]; seen {
+		if _, seen := m[key]; seen {
 			continue
 		}
 		if pol {
-			m[condName(cond)] = 1
+			m[key] = 1
 		} else {
-			m[condName(cond)] = -1
+			m[key] = -1
 		}
 	}
 	return formatFlagEnv(m)
